@@ -17,7 +17,7 @@ func init() {
 			"(R31a); each channel receive, select and WaitGroup.Wait has a ctx.Done() arm or is structurally bounded (R31b); external commands are started with exec.CommandContext on the caller's " +
 			"context and a Cancel override always comes with a WaitDelay (R31c); every read from the Runner's standard input happens after the read deadline has been tied to the context (R31d); " +
 			"Runner.stop consults ctx.Err() before it can answer false, and stmt/call ask it first (R31e); callbacks that capture a context and live in Runner state (command and process substitution) " +
-			"are rebuilt by every Run call from that call's context (R31f).",
+			"are rebuilt by every Run call from that call's context (R31f). Every started command has a WaitDelay (R31c); a nested Runner inherits the configured kill timeout (R31g); Fd() is not called on what may be the stdin unless it is a character device (R31h); Run consults ctx.Err() before it can return nil (R31i).",
 		NotDecided:  "the numeric bound; the blocking FIFO open in the process-substitution goroutine (it can outlive Run, which returns once R31b holds); handlers supplied by the user; writes to a full pipe.",
 		Assumptions: []string{"go statements, channel operations, selects and WaitGroup.Wait are the only blocking primitives besides I/O (enumerated syntactically over the whole package)", "SetReadDeadline unblocks a pending Read (os.File on pollable descriptors)"},
 		Controls:    c31Controls,
